@@ -181,16 +181,18 @@ def _t_opmatmul(c):
 
 
 def _matmul_shapes(c):
-    a = c.shape(1, 3)
-    br = c.int(1, 3)
-    if br == 1:
-        b = (a[-1],)
-    else:
-        m = c.int(1, 3)
-        lead = ()
-        if br == 3:
-            lead = (a[-3] if len(a) == 3 and c.bool() else (1 if len(a) == 3 else c.int(1, 2)),)
-        b = lead + (a[-1], m)
+    """Operand shapes NumPy's matmul accepts: vector / matrix / stacked matrices with independently broadcasting stack axes
+    (missing leading axes, length-one axes on either side)."""
+    k = c.int(1, 3)
+    ar = c.int(1, 4)
+    br = c.int(1, 4)
+    if ar <= 2 and br <= 2:
+        a = (k,) if ar == 1 else (c.int(1, 3), k)
+        b = (k,) if br == 1 else (k, c.int(1, 3))
+        return a, b
+    res = tuple(c.int(1, 3) for _ in range(max(ar, br) - 2))  # stack shape of the result
+    a = ((k,) if ar == 1 else tuple(1 if c.chance(1, 4) else d for d in res[len(res) - max(ar - 2, 0):]) + (c.int(1, 3), k))
+    b = ((k,) if br == 1 else tuple(1 if c.chance(1, 4) else d for d in res[len(res) - max(br - 2, 0):]) + (k, c.int(1, 3)))
     return a, b
 
 
